@@ -60,8 +60,17 @@ def run_inventory(ctx, facts, cfgname, rule="R1", bodies_filter=None, quiet_ok=F
         elif kind == "vec-range":
             how = inv.full_range(fn, b)
         # ---- repository-specific discharges
+        def is_handle_bound_assert():
+            """debug_assert!(handle.index < self.span_queue.len()), recognised by what the failing edge tested (not by its text)"""
+            if not msg.startswith("core::panicking::panic") or "assertion failed" not in msg:
+                return False
+            def bound(o):
+                return any(v[0] == "binop" and v[1] in ("Lt", "Le", "Gt", "Ge") for v in o.via) and \
+                    (any(v[0] == "call" and v[1].endswith("Vec::<T, A>::len") for v in o.via) or (o.kind == "param" and o.key == 2))
+            e = bool_cond_edges(fn, prov, bound, False) | bool_cond_edges(fn, prov, bound, True)
+            return bool(e) and any(fn.guarded([b], {x}) for x in e)
         if how is None and fn.path.startswith("fastrace::local::span_queue::SpanQueue::") and kind in ("index", "panic") \
-                and (kind == "index" or "span_handle.index < self.span_queue.len()" in msg):
+                and (kind == "index" or "span_handle.index < self.span_queue.len()" in msg or is_handle_bound_assert()):
             if qh_ok:
                 how = "invariant: " + qh_detail
         if how is None and kind == "panic" and c.ok() and fn.path == collector.HC:
